@@ -272,12 +272,22 @@ fn cmd_check(args: &Args) -> i32 {
         }
     }
     let write_known = std::env::var("DRIVER_WRITE_KNOWN").is_ok();
+    // minimisation is bounded per class (60 s) and per check (240 s): once the check's budget is
+    // spent the remaining classes are still written as exact replay files, just not shrunk
+    let minimise_t0 = Instant::now();
+    let class_budget = |t0: &Instant| -> u64 {
+        if t0.elapsed().as_secs() > 240 {
+            0
+        } else {
+            60
+        }
+    };
     for f in found.iter() {
         if let Some(k) = known.iter().find(|k| k.property == id && k.status == "open" && f.v.class.contains(&k.class)) {
             known_hits.entry(k.class.clone()).or_insert_with(|| format!("{} (e.g. case {}: {})", k.what, f.case_index, f.v.detail));
             if write_known {
                 let scratch = Scratch::new("minimise");
-                match minimise::minimise_and_write(&bin, &scratch, id, f, &verif_dir(), "known") {
+                match minimise::minimise_and_write(&bin, &scratch, id, f, &verif_dir(), "known", 60) {
                     Ok(p) => println!("recorded input for {} -> {}", f.v.class, p.display()),
                     Err(e) => eprintln!("could not record {}: {e}", f.v.class),
                 }
@@ -286,7 +296,7 @@ fn cmd_check(args: &Args) -> i32 {
         }
         // minimise, write the replay file, confirm it in a fresh run, report
         let scratch = Scratch::new("minimise");
-        match minimise::minimise_and_write(&bin, &scratch, id, f, &verif_dir(), "replays") {
+        match minimise::minimise_and_write(&bin, &scratch, id, f, &verif_dir(), "replays", class_budget(&minimise_t0)) {
             Ok(path) => {
                 println!("VIOLATION property={} replay={}", id, path.display());
                 println!("  class: {}", f.v.class);
